@@ -60,3 +60,16 @@ Theorem C06_exclusive : forall c acts t,
   has_cond (t_conds t) TEarlyStopped = false /\ obs_available (t_obs t) = true.
 Proof. exact trials_good. Qed.
 Print Assumptions C06_exclusive.
+
+(* A job satisfying the failure condition is reported Failed whatever the success condition says (failure is checked
+   first); Succeeded is reported only when the success condition holds and the failure condition does not. *)
+From KV Require Model.JobStatus.
+Theorem C06_failure_first : forall succ running named,
+  JobStatus.job_status true succ running named = JobStatus.JVFailed.
+Proof. reflexivity. Qed.
+Print Assumptions C06_failure_first.
+
+Theorem C06_succeeded_only_if_success : forall fail succ running named,
+  JobStatus.job_status fail succ running named = JobStatus.JVSucceeded -> succ = true /\ fail = false.
+Proof. intros [|] [|] r n; cbn; try discriminate; auto. destruct (negb r && n); discriminate. Qed.
+Print Assumptions C06_succeeded_only_if_success.
